@@ -64,9 +64,9 @@ func vfC03HeaderHeads(rng *rand.Rand, thorough bool) [][]byte {
 	lengths := [][]byte{{0x00}, {0x01}, {0x02}, {0x14}, {0x15}, {0x40, 0x14}}
 	if thorough {
 		firsts = []byte{0x00, 0x01, 0x3f, 0x40, 0x41, 0x42, 0x43, 0x4f, 0x50, 0x60, 0x7f, 0x80, 0x83, 0xc0, 0xc1, 0xc2, 0xc3, 0xcf, 0xd0, 0xd3, 0xe0, 0xf0, 0xff}
-		cids = append(cids, [2]int{8, 0}, [2]int{0, 8}, [2]int{20, 20}, [2]int{1, 1})
-		tokens = append(tokens, []byte{0x3f}, []byte{0x40, 0x00}, []byte{0xc0, 0, 0, 0, 0, 0, 0, 0})
-		lengths = append(lengths, []byte{0x10}, []byte{0x13}, []byte{0x16}, []byte{0x3f}, []byte{0x44, 0xd0}, []byte{0x7f, 0xff}, []byte{0x80, 0, 0, 0x20}, []byte{0xff, 0xff, 0xff, 0xff, 0xff, 0xff, 0xff, 0xff})
+		cids = append(cids, [2]int{8, 0}, [2]int{20, 20})
+		tokens = append(tokens, []byte{0x40, 0x00})
+		lengths = append(lengths, []byte{0x13}, []byte{0x16}, []byte{0x3f}, []byte{0x7f, 0xff}, []byte{0xff, 0xff, 0xff, 0xff, 0xff, 0xff, 0xff, 0xff})
 	}
 	for _, fb := range firsts {
 		heads = append(heads, []byte{fb})
